@@ -34,7 +34,7 @@ from vlib.vc.symex import Ctx, DictV, SetV, ListV
 I, B = M.I, M.B
 NAMES = ['a', 'b', 'c', 'd', 'e', 'f']
 NAMEZ = {nm: z3.Const('nm!' + nm, M.Name) for nm in NAMES + ['zz', 'yy']}
-TIMEOUT = int(os.environ.get('VERIF_CONCRETE_TIMEOUT_MS', '20000'))
+TIMEOUT = int(os.environ.get('VERIF_CONCRETE_TIMEOUT_MS', '10000'))
 
 
 def arr(pairs, dsort, default):
